@@ -247,10 +247,20 @@ def h_slice_slice(a: int, b: int, c: int, d: int, shard=None) -> None:
 def h_concat_slice(a: int, b: int, which: int, shard=None) -> None:
     """(t + u)[a:b], (t += u)[a:b], ('xy' + t)[a:b], (t + 'xy')[a:b]; the operands must stay unchanged"""
     from ak.color import CHText
-    reject_unless(0 <= which < 7)
+    reject_unless(0 <= which < 9)
     t, model = _build_canonical(shard["lens"], shard["cols"])
     u, model_u = _build_canonical(list(reversed(shard["lens"])), shard["cols"])
-    if which == 4:
+    if which in (7, 8):
+        # right operand of two chunks: it starts in the color the left operand ends with and ends in another one
+        last = shard["cols"][-1] if shard["cols"] else 0
+        u, model_u = _build_canonical([2, 1], [last, (last + 1) % 3])
+        if which == 7:
+            r = t + u
+        else:
+            r = CHText(t)
+            r += u
+        m = model + model_u
+    elif which == 4:
         r = "" + t
         m = list(model)
     elif which == 5:
@@ -276,6 +286,7 @@ def h_concat_slice(a: int, b: int, which: int, shard=None) -> None:
         raise Violation("concat-aliasing :: an operand was modified by the concatenation")
     if not _same(_observe(r), m):
         raise Violation(f"concat :: route {which} gives {_observe(r)}, expected {m}")
+    _expect_eq(r, m, f"concatenation route {which}")
     n = len(m)
     lo = _norm(a, n, False, 0)
     hi = _norm(b, n, False, n)
